@@ -1,12 +1,15 @@
 import Oracle.SexpStmt
 import Oracle.Handlers.Priv
 import InfluxQL.Model.PrivOfStmt
+import InfluxQL.Model.ColumnsOfStmt
 /-
 Streams that run the model END TO END FROM THE STATEMENT TEXT (the part "text → AST" is the
 statement parser model `parseStatementText`, not a description shipped by the Go side):
 
   priv.text s:<statement text> l:<lower table>
       ParseStatement(text).RequiredPrivileges()  -> ok <n> <admin 0|1>/s:<name>/<privilege> … | err s:<msg>
+  columns.text s:<SELECT text> <omitTime 0|1> s:<timeAlias> l:<lower table> [arguments for the property oracle, not read]
+      ParseStatement(text), OmitTime / TimeAlias set, ColumnNames()  -> ok <n> s:<name> … | err s:<msg> | not-select
 -/
 namespace Oracle.Handlers.TextTie
 open InfluxQL InfluxQL.Gen Oracle
@@ -35,10 +38,25 @@ def privText (a l : String) : String :=
     | .ok ps => showPrivs ps
   | _, _ => "bad-arg"
 
+def decFlag (a : String) : Option Bool :=
+  if a == "0" then some false else if a == "1" then some true else none
+
+def columnsText (a om ta l : String) : String :=
+  match decStr a, decFlag om, decStr ta, decLower l with
+  | some text, some omitTime, some timeAlias, some tbl =>
+    match columnsOfText text [] tbl omitTime timeAlias with
+    | .parseFail f => showFail f
+    | .notSelect => "not-select"
+    | .outOfFuel => "out-of-fuel"
+    | .ok names => "ok " ++ toString names.length ++ String.join (names.map fun n => " " ++ encStr n)
+  | _, _, _, _ => "bad-arg"
+
 def handle (stream : String) (args : List String) : Option String :=
   match stream, args with
   | "priv.text", [a, l] => some (privText a l)
   | "priv.text", _ => some "bad-arg"
+  | "columns.text", a :: om :: ta :: l :: _ => some (columnsText a om ta l)
+  | "columns.text", _ => some "bad-arg"
   | _, _ => none
 
 end Oracle.Handlers.TextTie
